@@ -100,6 +100,11 @@ def check_roundtrip(lx: LayoutExtractor, rep, prefix='C01'):
              'C02.L7): the jump target is start + header up to the length field + declared length', 1)
     rep.check(not p13, R('O13'), 'pdu+userdataitems:seek-targets', '', '%d end-of-item jump(s), each behind exactly the declared length' % n13,
               '; '.join(p13))
+    p14, n14 = optional_child_problems(lx)
+    rep.rule(R('O14'), 'an optional trailing sub-item is taken as present from its own header size on (a sub-item with an empty value is '
+             'exactly its header): no presence test asks for more bytes than that', 1)
+    rep.check(not p14, R('O14'), 'pdu+userdataitems:optional-children', '', '%d presence test(s) on remaining bytes, none stricter than the '
+              'child\'s header' % n14, '; '.join(p14))
     reachable = set()
     type_of = {}
     for c in classes:
@@ -946,4 +951,50 @@ def seek_target_problems(lx: LayoutExtractor) -> Tuple[List[str], int]:
                                  'the length field ends at offset %d and counts everything behind it: the target is %d byte(s) %s'
                                  % (c.name, line, x.args[0].id, ast.unparse(expr), q, vals[0], length_name, length_end,
                                     abs(vals[0] - length_end), 'too far (the next item is entered in its middle)' if vals[0] > length_end else 'short'))
+    return sorted(set(probs)), n
+
+
+def optional_child_problems(lx: LayoutExtractor) -> Tuple[List[str], int]:
+    """An optional trailing sub-item is present exactly when the bytes the declared length leaves are at least the sub-item's own
+    header: a sub-item with an empty value *is* its header (the library sends ``TransferSyntaxSubItem('')`` in refused contexts).
+    A presence test ``len(rest) > Child.header.size`` (or ``>= size + 1``) drops such a child; ``>=`` the header size, ``> 0`` and
+    plain truth are right.  -> (problems, number of presence tests examined)"""
+    probs: List[str] = []
+    n = 0
+    repo = lx.repo
+    for c in lx.classes.values():
+        f = c.methods.get('decode')
+        if f is None:
+            continue
+        for x in ast.walk(f.node):
+            if not (isinstance(x, ast.If) and isinstance(x.test, ast.Compare) and len(x.test.ops) == 1):
+                continue
+            l, r, op = x.test.left, x.test.comparators[0], x.test.ops[0]
+            if not (isinstance(l, ast.Call) and isinstance(l.func, ast.Name) and l.func.id == 'len' and len(l.args) == 1):
+                continue
+            decoded = [y for b in x.body for y in ast.walk(b) if isinstance(y, ast.Call) and isinstance(y.func, ast.Attribute)
+                       and y.func.attr == 'decode' and isinstance(y.func.value, ast.Name) and y.func.value.id in lx.classes]
+            if not decoded:
+                continue
+            child = lx.classes[decoded[0].func.value.id]
+            k = repo.try_fold(r, f.module, c)
+            hdr = None
+            hit = child.find_attr('header')
+            if hit is not None:
+                sv = repo.try_fold(hit[1], hit[0].module, hit[0])
+                hdr = getattr(sv, 'size', None)
+                if hdr is None and hasattr(sv, 'fmt'):
+                    import struct as _st
+                    try:
+                        hdr = _st.calcsize(sv.fmt)
+                    except Exception:
+                        hdr = None
+            if not isinstance(k, int) or not isinstance(hdr, int):
+                continue
+            n += 1
+            least = k + 1 if isinstance(op, ast.Gt) else k if isinstance(op, ast.GtE) else None
+            if least is not None and least > hdr:
+                probs.append('%s.decode line %d: the optional %s is decoded only when %s, i.e. from %d bytes on; a %s with an empty value is '
+                             'its %d-byte header alone (the library sends such items itself): it is read and thrown away, the item does '
+                             'not come back as it was sent' % (c.name, x.lineno, child.name, ast.unparse(x.test), least, child.name, hdr))
     return sorted(set(probs)), n
